@@ -1,6 +1,6 @@
 """C03  One-sided changes mirror exactly; origin side untouched; no echo."""
 from ..core import ok, violation
-from ..gen import draw_cfg, gen_history
+from ..gen import draw_cfg, gen_history, envelope_ok
 from ..hist import HistoryRun, Stop
 from .. import oracles as O
 
@@ -28,6 +28,10 @@ def gen(d, tier):
     n_ops = (3, 8) if tier == "quick" else (3, 16)
     acts, world = gen_history(d, cfg, sides=(origin,), n_ops=n_ops, sizes=True)
     return {"cfg": cfg, "acts": acts, "meta": {"excluded": dict(world.excluded)}}
+
+
+def in_domain(trace):
+    return envelope_ok(trace, sides=(trace["cfg"]["origin"],))
 
 
 class Run(HistoryRun):
